@@ -10,6 +10,9 @@ spec["conds"] = [ [file, function, anchor-regex, gallina-name, [params], {c-sube
     The anchor regex must match exactly `count` times inside the function body (default 1; a 7th element gives
     another count -- VSread and VSwrite repeat the same expression in every case and all copies must agree);
     group 1 is the C expression.
+spec["stmts"] = [ [file, function, regex, gallina-name] ]
+    the statements of a function that match the regex, in textual order, as strings (header-size bookkeeping of
+    VSsetname / VSsetclass)
 spec["encode_order"] = [ [file, function, gallina-name] ]
     the sequence of ENCODE/DECODE macro uses in vpackvs / vunpackvs as a list of (width, field-name) pairs, in textual
     order of the source (so that dropping, adding or reordering a header field is visible to the proofs)
@@ -100,16 +103,28 @@ def _skeleton(repo, H, f, fn, name):
             "Definition %s : list string :=\n  [%s]." % (name, ";\n   ".join('"%s"%%string' % i.replace('"', "'") for i in items))]
 
 
+def _stmts(repo, H, f, fn, pattern, name):
+    """statements of a function matching a regex, in textual order (preprocessed text), as strings"""
+    body = H.func_body(H.src(repo, f), fn)
+    items = [" ".join(m.group(0).split()) for m in re.finditer(pattern, body)]
+    if not items:
+        raise ValueError("%s: no statement matches %r" % (fn, pattern))
+    return ["(* %s: %s: statements matching %s *)" % (f, fn, pattern.replace("*)", "* )")),
+            "Definition %s : list string :=\n  [%s]." % (name, ";\n   ".join('"%s"%%string' % i.replace('"', "'") for i in items))]
+
+
 def emit(repo, spec, H):
     out = []
     if spec.get("rstab"):
         out += _rstab(repo, H, spec["rstab"][0], spec["rstab"][1])
     for ent in spec.get("conds", []):
         out += _cond(repo, H, ent)
-    if spec.get("encode_order") or spec.get("skeletons"):
+    if spec.get("encode_order") or spec.get("skeletons") or spec.get("stmts"):
         out.insert(0, "From Coq Require Import String.")
     for f, fn, name in spec.get("encode_order", []):
         out += _encode_order(repo, H, f, fn, name)
     for f, fn, name in spec.get("skeletons", []):
         out += _skeleton(repo, H, f, fn, name)
+    for f, fn, pattern, name in spec.get("stmts", []):
+        out += _stmts(repo, H, f, fn, pattern, name)
     return out
